@@ -455,13 +455,8 @@ class Z:
             r = fresh_real("abs")
             ctl().assume(z3.And(r >= 0, r * r == s.re * s.re + s.im * s.im), "modulus definition")
             return Z(r)
-        # three-way decision on the sign (through the path controller) instead of an If-term
-        c = ctl()
-        if c.decide(s.re > 0):
-            return s
-        if c.decide(s.re < 0):
-            return Z(-s.re)
-        return Z(_R0)
+        # lazily: |x|**2 and |x|*|x| never need the sign; any other use forks three ways on it
+        return ZAbs(s.re)
 
     # -- comparisons (real only)
     def _cmp(s, o, op):
@@ -554,6 +549,49 @@ class Z:
         if s.im is None:
             return f"Z({z3.simplify(s.re)})"
         return f"Z({z3.simplify(s.re)} + i*({z3.simplify(s.im)}))"
+
+
+class ZAbs(Z):
+    """|x| of a real term.  The sign of x is decided (three-way, through the path controller)
+    only when the value itself is needed; squaring does not need it."""
+
+    __slots__ = ("_inner", "_val")
+
+    def __init__(self, inner):
+        self._inner = inner
+        self._val = None
+        self.im = None
+
+    @property
+    def re(self):
+        if self._val is None:
+            c = ctl()
+            if c.decide(self._inner > 0):
+                self._val = self._inner
+            elif c.decide(self._inner < 0):
+                self._val = -self._inner
+            else:
+                self._val = _R0
+        return self._val
+
+    @re.setter
+    def re(self, v):
+        self._val = v
+
+    def __pow__(s, p):
+        if p == 2:
+            return Z(s._inner * s._inner)
+        return Z.__pow__(s, p)
+
+    def __mul__(s, o):
+        if isinstance(o, ZAbs) and z3.eq(o._inner, s._inner):
+            return Z(s._inner * s._inner)
+        return Z.__mul__(s, o)
+
+    __rmul__ = __mul__
+
+    def __abs__(s):
+        return s
 
 
 def _nonzero(den):
